@@ -38,7 +38,7 @@ def oracle(case, recs, out, stats):
     plain = X.plain_world(case)
     for k, rec in enumerate(recs):
         if rec["op"][0] != "eval":
-            plain.apply_edit(rec["op"], rec["impl"] == "ok")
+            plain.apply_op(rec["op"], rec["impl"] == "ok")
             continue
         a = rec["impl"]
         if not a.startswith("ok"):
@@ -268,8 +268,17 @@ def name_resolution(out, stats):
         close_all()
 
 
+# random programs with copies (implementation-only vocabulary): cells in both spaces, Cells.copy / UserSpace.copy at any
+# point of the history, references changed / defined in the spaces afterwards, the copies asked and edited like cells
+CFG_COPY = dict(CFG, space_p=0.4, default_p=0.0,
+                weights=dict(CFG["weights"], copycell=0.9, copyspace=0.35, setref=1.0, shadow=0.7, unshadow=0.2))
+
+
 def run(ctx, out):
-    stats = X.run_family(ctx, out, CFG, oracle, 150, 2500, structured=default_call_cases())
+    extra = [X.gen_case(ctx.rng("copy", i), CFG_COPY) for i in range(ctx.n(25, 400))]
+    for i, c in enumerate(extra):
+        c["label"] = "copies-random/%d" % i
+    stats = X.run_family(ctx, out, CFG, oracle, 150, 2500, structured=default_call_cases() + X.copy_cases() + extra)
     name_resolution(out, stats)
     out.coverage["input_distribution"]["name_resolution_scenarios"] = stats["name_resolution_scenarios"]
     out.assumptions.append("Python's own evaluation of arithmetic and inspect.Signature.bind are exercised, not modelled")
